@@ -8,6 +8,7 @@ import (
 	"go/types"
 	"os"
 	"regexp"
+	"rscheck/rules/reent"
 	"strings"
 
 	"golang.org/x/tools/go/cfg"
@@ -166,7 +167,23 @@ func compare(c *core.Ctx, rule, key string, pos token.Pos, got, want string, ex 
 	c.Failf(rule, key, pos, "%s consumes `%s` but the RDB format stores `%s`: the bytes that follow are mis-framed (every later key is corrupted or the load aborts)", what, got, want)
 }
 
+func reentrant(c *core.Ctx) {
+	var roots []*core.Fn
+	for _, n := range []string{"NextBinEntry", "Header", "Footer"} {
+		if f := c.FuncOpt("pkg/rdb", "Loader", n); f != nil {
+			roots = append(roots, f)
+		}
+	}
+	for _, n := range []string{"NewLoader", "createValueDump", "DecodeDump", "EncodeDump"} {
+		if f := c.FuncOpt("pkg/rdb", "", n); f != nil {
+			roots = append(roots, f)
+		}
+	}
+	reent.Check(c, "R10.reentrant", roots, []string{"pkg/rdb", "pkg/rdb/digest", "pkg/libs/cupcake/rdb", "pkg/libs/cupcake/rdb/crc64"}, "one loader per source node / parallel workers")
+}
+
 func Run(c *core.Ctx) {
+	defer reentrant(c)
 	pk := c.Pkg(pkg)
 	if pk == nil {
 		c.Undecidedf("anchor", pkg, token.NoPos, "package not loaded")
